@@ -686,7 +686,11 @@ func (w *world) checkHandles(res *mbt.Result, bi, si int) *mbt.Violation {
 			continue
 		}
 		if !ret[id] {
-			return &mbt.Violation{Property: "C08", Behaviour: bi, Step: si,
+			prop := "C08"
+			if w.in.Property == "C09" {
+				prop = "C09" // a retained checkpoint was removed from the document (its files follow at the next save)
+			}
+			return &mbt.Violation{Property: prop, Behaviour: bi, Step: si,
 				What: fmt.Sprintf("the completed handle of checkpoint %d names a checkpoint that is not in the saved checkpoint document although the caller never dropped it (retained in document: %v)", id, ret), Expected: w.snap[id]}
 		}
 		ids = append(ids, id)
